@@ -262,4 +262,7 @@ def run_task(task, acc):
                             lon = [pat[j % 2][0] if p[0] else marker for j, p in enumerate(pres)]
                             lat = [pat[j % 2][1] if p[1] else marker for j, p in enumerate(pres)]
                             yield dict(fn=name, cfg=cfg, lon=lon, lat=lat, secs=alpha.regular_secs(k, 3600), how=how)
+                            if name == "speed_test" and k >= 2 and how == "nd":
+                                rep = [alpha.T0 + 3600 * (j - (1 if j >= 2 else 0)) for j in range(k)]  # a repeated timestamp
+                                yield dict(fn=name, cfg=cfg, lon=lon, lat=lat, secs=rep, how=how)
         run_cases(acc, gen(), check_case)
